@@ -35,6 +35,7 @@ Snap(sl, pools, nodes, l2, bgp, peers) ==
   [slice |-> sl, pools |-> pools, nodes |-> nodes, l2 |-> l2, bgp |-> bgp, peers |-> peers]
 
 ----------------------------------------------------------------------------
+(* (the slices take a dummy argument so that TLC does not evaluate the unused ones at start-up) *)
 (* single: one pool, one entry, every entry in every spelling               *)
 SingleCat ==
   CidrsAll("v4") \cup Respell(CidrsAll("v4"), "mapped") \cup Respell(CidrsAll("v4"), "low")
@@ -44,23 +45,25 @@ SingleCat ==
   \cup CidrsAll("v6") \cup Respell(CidrsAll("v6"), "low")
   \cup RangesAll("v6") \cup Respell(RangesAll("v6"), "ws") \cup RangesRev("v6")
   \cup MixedAll
-SliceSingle == {Snap("single", <<Pool("p1", "", <<e>>)>>, <<>>, <<>>, <<>>, <<>>) : e \in SingleCat}
+SliceSingle(u) == {Snap("single", <<Pool("p1", "", <<e>>)>>, <<>>, <<>>, <<>>, <<>>) : e \in SingleCat}
 
 (* pair4 / pair6 / pairx: two pools with one entry each                     *)
-PairCat4 == CidrsAligned("v4") \cup Respell(CidrsAligned("v4"), "mapped") \cup RangesAll("v4")
-PairCat6 == CidrsAligned("v6") \cup RangesAll("v6")
+PairRanges(f) == IF W <= 4 THEN RangesAll(f) ELSE RangesSome(f)
+PairCat4 == CidrsAligned("v4") \cup Respell(CidrsAligned("v4"), "mapped") \cup PairRanges("v4")
+PairCat6 == CidrsAligned("v6") \cup PairRanges("v6")
+Part(C, k) == {e \in C : e.a % 4 = k}       \* the pair slices are cut in four for parallel TLC runs
 Pairs(sl, C1, C2) ==
   {Snap(sl, <<Pool("p1", "", <<e1>>), Pool("p2", "", <<e2>>)>>, <<>>, <<>>, <<>>, <<>>) : e1 \in C1, e2 \in C2}
-SlicePair4 == Pairs("pair4", PairCat4, PairCat4)
-SlicePair6 == Pairs("pair6", PairCat6, PairCat6)
+SlicePair4(k) == Pairs("pair4", Part(PairCat4, k), PairCat4)
+SlicePair6(k) == Pairs("pair6", Part(PairCat6, k), PairCat6)
 CrossCat(f) == {e \in CidrsAligned(f) : e.b <= 1} \cup RangesSome(f)
-SlicePairX == Pairs("pairx", CrossCat("v4") \cup Respell({e \in CidrsAligned("v4") : e.b <= 1}, "mapped"), CrossCat("v6"))
+SlicePairX(u) == Pairs("pairx", CrossCat("v4") \cup Respell({e \in CidrsAligned("v4") : e.b <= 1}, "mapped"), CrossCat("v6"))
               \cup Pairs("pairx", CrossCat("v6"), CrossCat("v4"))
               \cup Pairs("pairx", MixedAll, CrossCat("v4") \cup CrossCat("v6"))
 
 (* multi: one pool with two entries; three pools                            *)
 MultiCat(f) == CidrsAligned(f) \cup RangesSome(f)
-SliceMulti ==
+SliceMulti(u) ==
   {Snap("multi", <<Pool("p1", "", <<e1, e2>>)>>, <<>>, <<>>, <<>>, <<>>) : e1 \in MultiCat("v4"), e2 \in MultiCat("v4")}
   \cup {Snap("multi", <<Pool("p1", "", <<e1, e2>>)>>, <<>>, <<>>, <<>>, <<>>) : e1 \in CrossCat("v4"), e2 \in CrossCat("v6")}
   \cup {Snap("multi", <<Pool("p1", "", <<e1, e2>>)>>, <<>>, <<>>, <<>>, <<>>) : e1 \in CrossCat("v6"), e2 \in CrossCat("v6")}
@@ -69,7 +72,7 @@ TinyCat == {e \in CidrsAligned("v4") : e.b \in {1, 2}}
            \cup Respell({e \in CidrsAligned("v4") : e.b \in {1, 2}}, "mapped")
            \cup {E("range", "v4", 0, 3, "plain"), E("range", "v4", 2, 5, "plain"), E("range", "v4", 4, 7, "plain"),
                  E("range", "v4", NA \div 2, NA - 1, "plain"), E("range", "v4", 6, 9, "plain")}
-SliceTriple ==
+SliceTriple(u) ==
   {Snap("triple", <<Pool("p1", "", <<e1>>), Pool("p2", "", <<e2>>), Pool("p3", "", <<e3>>)>>, <<>>, <<>>, <<>>, <<>>) :
       e1 \in TinyCat, e2 \in TinyCat, e3 \in TinyCat}
 
@@ -78,7 +81,7 @@ NodeCat == {e \in CidrsAligned("v4") : e.b >= 1} \cup Respell({e \in CidrsAligne
            \cup RangesSome("v4") \cup {e \in CidrsAligned("v6") : e.b >= 1} \cup RangesSome("v6")
 NodeAddrs == {Addr(t, "v4", a, sp) : t \in {"int", "ext"}, a \in Marks, sp \in {"plain", "mapped"}}
              \cup {Addr(t, "v6", a, "plain") : t \in {"int", "ext"}, a \in Marks}
-SliceNodes ==
+SliceNodes(u) ==
   {Snap("nodes", <<Pool("p1", "", <<e>>)>>, <<Node("n1", "a", <<ad>>)>>, <<>>, <<>>, <<>>) : e \in NodeCat, ad \in NodeAddrs}
   \cup {Snap("nodes", <<Pool("p1", "", <<E("cidr", "v4", 0, 1, "plain")>>), Pool("p2", "", <<e>>)>>,
              <<Node("n1", "a", <<Addr("ext", "v4", 0, "plain"), ad1>>), Node("n2", "b", <<ad2>>)>>, <<>>, <<>>, <<>>) :
@@ -97,7 +100,7 @@ AL2(n, ifs) == {L2(n, pl, ps, ns, ifs) : pl \in APoolLists, ps \in APoolSels, ns
 AL2Few(n, ifs) == {L2(n, pl, ps, ns, ifs) : pl \in {<<>>, <<"p1">>}, ps \in {<<>>, <<"x", "y">>}, ns \in {<<>>, <<"a">>, <<"b">>}}
 ABgp(n, lp) == {Bgp(n, pl, ps, ns, 32, 128, lp, <<>>) : pl \in APoolLists, ps \in APoolSels, ns \in ANodeSels}
 ABgpFew(n, lp) == {Bgp(n, pl, ps, ns, 32, 128, lp, <<>>) : pl \in {<<>>, <<"p1">>}, ps \in {<<>>, <<"x", "y">>}, ns \in {<<>>, <<"a">>, <<"b">>}}
-SliceAttach ==
+SliceAttach(u) ==
   {Snap("attach", APools, nd, <<x>>, <<>>, <<>>) : nd \in ANodes, x \in AL2("l1", <<>>) \cup AL2("l1", <<"eth0">>)}
   \cup {Snap("attach", APools, nd, <<>>, <<x>>, <<>>) : nd \in ANodes, x \in ABgp("b1", 0)}
   \cup {Snap("attach", APools, nd, <<x, y>>, <<>>, <<>>) : nd \in ANodes, x \in AL2("l1", <<>>), y \in AL2Few("l2", <<>>) \cup AL2Few("l2", <<"eth0">>)}
@@ -105,13 +108,13 @@ SliceAttach ==
   \cup {Snap("attach", APools, nd, <<y>>, <<x>>, <<>>) : nd \in ANodes, x \in ABgp("b1", 0), y \in AL2Few("l2", <<>>)}
 
 (* agg: aggregation lengths against the prefixes of the pool                *)
-AggVals(f) == {0, P0(f) - 1, Bits(f)} \cup {P0(f) + l : l \in 0 .. W + 1}
+AggVals(f) == {x \in {0, P0(f) - 1, Bits(f)} \cup {P0(f) + l : l \in 0 .. W + 1} : x >= 0 /\ x <= Bits(f)}
 AggCat4 == CidrsAligned("v4") \cup {E("cidr", "v4", 5, 2, "plain"), E("cidr", "v4", 0, 1, "mapped")} \cup
            {e \in RangesSome("v4") : e.a \in {0, 1, 4} /\ e.b \in {3, 7, NA - 1}}
 AggCat6 == {e \in CidrsAligned("v6") : e.a \in {0, NA \div 2}} \cup {E("range", "v6", 1, 4, "plain")}
-SliceAgg ==
+SliceAgg(u) ==
   {Snap("agg", <<Pool("p1", "", <<e>>)>>, <<>>, <<>>, <<Bgp("b1", <<>>, <<>>, <<>>, a4, a6, 0, <<>>)>>, <<>>) :
-      e \in AggCat4, a4 \in {x \in AggVals("v4") : x <= 32}, a6 \in {128, P06}}
+      e \in AggCat4, a4 \in AggVals("v4"), a6 \in {128, P06}}
   \cup {Snap("agg", <<Pool("p1", "", <<e>>)>>, <<>>, <<>>, <<Bgp("b1", <<>>, <<>>, <<>>, a4, a6, 0, <<>>)>>, <<>>) :
       e \in AggCat6, a4 \in {32, P04}, a6 \in AggVals("v6")}
   \cup {Snap("agg", <<Pool("p1", "", <<e4, e6>>)>>, <<>>, <<>>, <<Bgp("b1", <<>>, <<>>, <<>>, a4, a6, 0, <<>>)>>, <<>>) :
@@ -120,7 +123,7 @@ SliceAgg ==
       a4 \in {P04, P04 + 1, P04 + 3, 32}, a6 \in {P06, P06 + 2, P06 + W, 128}}
   \cup {Snap("agg", <<Pool("p1", "", <<e1, e2>>)>>, <<>>, <<>>, <<Bgp("b1", <<>>, <<>>, <<>>, a4, 128, 0, <<>>)>>, <<>>) :
       e1 \in {E("cidr", "v4", 0, 2, "plain")}, e2 \in {E("cidr", "v4", 4, 2, "plain"), E("cidr", "v4", 8, 1, "plain")},
-      a4 \in {x \in AggVals("v4") : x <= 32}}
+      a4 \in AggVals("v4")}
 
 (* lp: local-preference clashes                                             *)
 LPools == {<<Pool("p1", "", <<E("cidr", "v4", 0, 2, "plain")>>)>>,
@@ -129,7 +132,7 @@ LPools == {<<Pool("p1", "", <<E("cidr", "v4", 0, 2, "plain")>>)>>,
            <<Pool("p1", "", <<E("range", "v4", 1, 6, "plain")>>), Pool("p2", "", <<E("cidr", "v4", 8, 1, "plain")>>)>>,
            <<Pool("p1", "", <<E("mixed", "v4", 0, 1, "46")>>)>>}
 LNodes == <<Node("n1", "a", <<>>), Node("n2", "b", <<>>)>>
-SliceLP ==
+SliceLP(u) ==
   {Snap("lp", pl, LNodes,
         <<>>, <<Bgp("b1", <<>>, <<>>, ns1, 32, 128, 100, pe1), Bgp("b2", p2, <<>>, ns2, a4, a6, lp2, pe2)>>, ex) :
       pl \in LPools, ns1 \in {<<>>, <<"a">>}, pe1 \in {<<>>, <<"q1">>, <<"q1", "q2">>},
@@ -137,16 +140,16 @@ SliceLP ==
       lp2 \in {100, 200}, pe2 \in {<<>>, <<"q1">>, <<"q2">>, <<"q3">>}, ex \in {<<>>, <<"q1", "q2">>}}
 
 Snapshots ==
-  (IF "single" \in Slices THEN SliceSingle ELSE {}) \cup
-  (IF "pair4" \in Slices THEN SlicePair4 ELSE {}) \cup
-  (IF "pair6" \in Slices THEN SlicePair6 ELSE {}) \cup
-  (IF "pairx" \in Slices THEN SlicePairX ELSE {}) \cup
-  (IF "multi" \in Slices THEN SliceMulti ELSE {}) \cup
-  (IF "triple" \in Slices THEN SliceTriple ELSE {}) \cup
-  (IF "nodes" \in Slices THEN SliceNodes ELSE {}) \cup
-  (IF "attach" \in Slices THEN SliceAttach ELSE {}) \cup
-  (IF "agg" \in Slices THEN SliceAgg ELSE {}) \cup
-  (IF "lp" \in Slices THEN SliceLP ELSE {})
+  (IF "single" \in Slices THEN SliceSingle(0) ELSE {}) \cup
+  UNION {IF ("pair4_" \o ToString(k)) \in Slices THEN SlicePair4(k) ELSE {} : k \in 0 .. 3} \cup
+  UNION {IF ("pair6_" \o ToString(k)) \in Slices THEN SlicePair6(k) ELSE {} : k \in 0 .. 3} \cup
+  (IF "pairx" \in Slices THEN SlicePairX(0) ELSE {}) \cup
+  (IF "multi" \in Slices THEN SliceMulti(0) ELSE {}) \cup
+  (IF "triple" \in Slices THEN SliceTriple(0) ELSE {}) \cup
+  (IF "nodes" \in Slices THEN SliceNodes(0) ELSE {}) \cup
+  (IF "attach" \in Slices THEN SliceAttach(0) ELSE {}) \cup
+  (IF "agg" \in Slices THEN SliceAgg(0) ELSE {}) \cup
+  (IF "lp" \in Slices THEN SliceLP(0) ELSE {})
 
 ASSUME PrintT(ToJson([domain |-> [W |-> W, S4 |-> S4, S6 |-> S6]]))
 
